@@ -144,6 +144,12 @@ def run(ctx):
                 cases.append(mk_case(rng, pz, "eps0", setting, rng.choice(["Wx", "Wz"]), Q.seed_vectors(rng, min(d, 12), 1)[0], None))
             cases.append(mk_case(rng, pz, "tol0", (1e-4, 1 - 1e-4, 0.0), rng.choice(["Wx", "Wz"]), Q.seed_vectors(rng, min(d, 12), 1)[0], None))
             cases.append(mk_case(rng, pz, "tol0", (1e-4, 1 - 1e-4, 0.0), rng.choice(["Wx", "Wz"]), Q.seed_vectors(rng, min(d, 12), 1)[0], 1e-3))
+        # definite-parity targets stored with a trailing zero (so that len-1 has the other parity) and every coefficient below eps/2: whatever
+        # comes back must realise suc*(p + eps/2 x^d) - "noise below the budget" is still part of the target
+        for pp_ in ([0.0, 0.4, 0.0], [0.3, 0.0, -0.4, 0.0], [0.0, 0.35, 0.0, 0.3, 0.0], [0.45, 0.0], [0.0, -0.4, 0.0, 0.0]):
+            for setting in ((0.1, 0.9, 1e-6), (0.02, 0.95, 1e-6)):
+                cases.append(mk_case(rng, [x * setting[0] for x in pp_], "padded-small", setting, rng.choice(["Wx", "Wz"]),
+                                     Q.seed_vectors(rng, len(pp_) - 1, 1)[0], None))
         # integer-valued coefficient vectors (+-T_n, monomials) in every container the entry point accepts
         for n in (range(1, 8) if quick else range(1, 13)):
             tn = [float(x) for x in Q.cheb2mono([Fraction(0)] * n + [Fraction(1)])]
